@@ -7,7 +7,7 @@ HEADLINE = ["steps", "substeps", "trigger_demands", "trigger_while_dest_inflight
 
 
 def plan(tier, seed, scale):
-    return {"n_cases": sizes(tier, scale, 2400, 60000), "variants": 4,
+    return {"n_cases": sizes(tier, scale, 2400, 60000), "variants": 4, "rt_every": 7,
             "profiles": ["events", "core", "events_flat", "chain", "deep", "par", "big", "flat", "wild", "sibling"],
             "remote_cases": int((32 if tier == "quick" else 1600) * scale),
             "dfs_cases": int((96 if tier == "quick" else 1600) * scale), "dfs_cap": 300 if tier == "quick" else 20000,
